@@ -1,14 +1,95 @@
-import EpModel.Model.Codec.NetIpv6
-import EpModel.Model.Codec.NetIpv6Frag
-import EpModel.Model.Codec.NetIpv4
-import EpModel.Model.Codec.NetAuth
-import EpModel.Model.Codec.NetRawExt
+import EpModel.Lemmas.CodecNetIpv6
 /-
   C08 (network-layer half) — every header value survives encode → decode unchanged.
+
+  Models: EpModel.Model.Codec.Net{Ipv6,Ipv6Frag,Ipv4,Auth,RawExt} (net/*.rs, struct and slice
+  types).  Per type T:
+    encoders_agree  WF h → all serialisers the type has (to_bytes, write into a Vec, for IPv4 also
+                    write_raw) give the same bytes, of length header_len()        [none of these five
+                    types has a write_to_slice]
+    decode_encode   WF h → from_slice (to_bytes h ++ tail) = Ok (h, tail)
+    encode_decode   from_slice b = Ok (h, rest) → to_bytes h = maskReserved T (first header_len bytes
+                    of b) ∧ from_slice (to_bytes h ++ rest) = Ok (h, rest)
+    slice_eq_struct THeaderSlice::from_slice(b).to_header() = THeader::from_slice(b).0, and the
+                    slice covers exactly the consumed bytes
+  All statements are over every value / every byte string; no size bounds.
 -/
 namespace EpModel.Props.C08Net
-open EpModel EpModel.CodecNet
+open EpModel EpModel.CodecNet EpModel.Lemmas.CodecNet
+
+/-! ## Ipv6Header -/
+namespace Ipv6
+open EpModel.Lemmas.CodecNet.Ipv6
+
+/-- `to_bytes` and `write` produce the same 40 = `header_len()` bytes. -/
+theorem encoders_agree (h : Ipv6Header) (wf : h.WF) :
+    h.toBytes = h.writeOut ∧ h.toBytes.length = h.headerLen :=
+  ⟨rfl, toBytes_length h wf⟩
+
+/-- decoding the serialised header (followed by anything) returns the value and the untouched
+    remainder. -/
+theorem decode_encode (h : Ipv6Header) (tail : Bytes) (wf : h.WF) :
+    Ipv6Header.fromSlice (h.toBytes ++ tail) = .ok (h, tail) := by
+  unfold Ipv6Header.fromSlice
+  rw [slice_of_toBytes h tail wf]
+  simp only [toHeader_toBytes h wf]
+  rw [List.drop_left' (toBytes_length h wf)]
+
+/-- the IPv6 header has no reserved bits. -/
+theorem maskReserved_id (b : Bytes) : maskReserved .ipv6 b = b := rfl
+
+/-- re-encoding an accepted byte string reproduces its first 40 bytes exactly, and decoding the
+    re-encoded bytes yields the same value and remainder again. -/
+theorem encode_decode (b : Bytes) (h : Ipv6Header) (rest : Bytes)
+    (hd : Ipv6Header.fromSlice b = .ok (h, rest)) :
+    h.toBytes = maskReserved .ipv6 (b.take h.headerLen) ∧
+      Ipv6Header.fromSlice (h.toBytes ++ rest) = .ok (h, rest) := by
+  obtain ⟨hlen, hver, rfl, rfl⟩ := fromSlice_ok b h rest hd
+  obtain ⟨b0, b, rfl⟩ := exists_cons b (by omega)
+  obtain ⟨b1, b, rfl⟩ := exists_cons b (by simp at hlen; omega)
+  obtain ⟨b2, b, rfl⟩ := exists_cons b (by simp at hlen; omega)
+  obtain ⟨b3, b, rfl⟩ := exists_cons b (by simp at hlen; omega)
+  obtain ⟨b4, b, rfl⟩ := exists_cons b (by simp at hlen; omega)
+  obtain ⟨b5, b, rfl⟩ := exists_cons b (by simp at hlen; omega)
+  obtain ⟨b6, b, rfl⟩ := exists_cons b (by simp at hlen; omega)
+  obtain ⟨b7, b, rfl⟩ := exists_cons b (by simp at hlen; omega)
+  simp at hlen hver
+  have hr : (b.take 32).length = 32 := by simp; omega
+  have key := toBytes_toHeader b0 b1 b2 b3 b4 b5 b6 b7 (b.take 32) hr hver
+  simp only [maskReserved_id, Ipv6Header.headerLen, List.take_succ_cons, List.drop_succ_cons]
+  refine ⟨key, ?_⟩
+  exact decode_encode _ _ (toHeader_wf _ (by simp; omega))
+
+/-- everything `from_slice` accepts decodes to an in-range value. -/
+theorem decoded_wf (b : Bytes) (h : Ipv6Header) (rest : Bytes)
+    (hd : Ipv6Header.fromSlice b = .ok (h, rest)) : h.WF := by
+  obtain ⟨hlen, _, rfl, _⟩ := fromSlice_ok b h rest hd
+  exact toHeader_wf _ (by simp; omega)
+
+/-- the slice type and the struct decoder agree: same errors, `to_header()` is the decoded struct,
+    the slice is exactly the consumed prefix and the rest starts behind it. -/
+theorem slice_eq_struct (b : Bytes) :
+    Ipv6Header.fromSlice b =
+      (Ipv6HeaderSlice.fromSlice b).map (fun s => (s.toHeader, b.drop s.slice.length)) := by
+  unfold Ipv6Header.fromSlice Ipv6HeaderSlice.fromSlice
+  by_cases hlen : b.length < 40
+  · simp [hlen, Except.map]
+  · by_cases hver : 6 = bAt b 0 >>> 4
+    · have : min 40 b.length = 40 := by omega
+      simp [hlen, ← hver, Except.map, this]
+    · simp [hlen, hver, Except.map]
+
+/-- the slice accessors that are not struct fields are functions of the struct fields. -/
+theorem slice_accessors (s : Ipv6HeaderSlice) :
+    s.ecn = s.toHeader.trafficClass % 4 ∧ s.dscp = s.toHeader.trafficClass / 4 % 64 ∧
+      s.headerLen = s.toHeader.headerLen := by
+  simp [Ipv6HeaderSlice.ecn, Ipv6HeaderSlice.dscp, Ipv6HeaderSlice.toHeader,
+    Ipv6HeaderSlice.headerLen, Ipv6Header.headerLen, and3, and63, Nat.shiftRight_eq_div_pow]
 
 example : Ipv6Header.WF Ipv6Header.sampleMax := by decide
+example : Ipv6Header.fromSlice (Ipv6Header.sampleMax.toBytes ++ [1, 2, 3]) =
+    .ok (Ipv6Header.sampleMax, [1, 2, 3]) := by rfl
+
+end Ipv6
 
 end EpModel.Props.C08Net
